@@ -45,7 +45,7 @@ Step ==
        [] ev.ev = "sil.set" -> IF ev.data.code = 200 THEN SilSet(ev.data.ms, ev.data.start, ev.data.end) ELSE Other
        [] ev.ev = "sil.expire" -> IF ev.data.code = 200 THEN SilExpire(ev.data.idx) ELSE Other
        [] ev.ev = "flush.begin" -> FlushBegin(ev.ag, ev.gk, ev.alerts, IF ev.tick <= 0 THEN ev.t ELSE ev.tick)
-       [] ev.ev = "attempt" -> Attempt(ev.ag, ev.gk, ev.integ, ev.alerts, ev.outcome, ev.deadline, ev.st)
+       [] ev.ev = "attempt" -> Attempt(ev.ag, ev.gk, ev.recv, ev.integ, ev.alerts, ev.outcome, ev.deadline, ev.st)
        [] ev.ev = "nflog.log" -> NflogLog(ev.gk, ev.integ, ToSet(ev.firing), ToSet(ev.resolved))
        [] ev.ev = "flush.ok" -> FlushOk(ev.ag)
        [] ev.ev = "flush.done" -> FlushDone(ev.ag)
